@@ -5,6 +5,7 @@ use crate::{RunCfg, Tier};
 
 pub mod enc_common;
 pub mod hist;
+pub mod cfgsweep;
 pub mod c01;
 pub mod c02;
 pub mod c03;
